@@ -430,6 +430,29 @@ def rule_W_KEY_keygen(ctx, repo):
         raise AnalysisError('instance count below confirmed minimum: %d key computations in klepto.keygen' % n)
 
 
+def rule_R_ITER(ctx, repo):
+    """R-ITER: what the deep rounder descends into is decided by asking the object (iter(x) succeeds, or it is an instance of collections.abc.Iterable), not
+    by the presence of an `__iter__` attribute: classes such as `list` or `dict` have that attribute without being iterable, and expanding one with
+    deep_round(*list) raises TypeError - rounding makes a valid call fail (in klepto.safe: silently stops caching)."""
+    m = repo.mod('tools')
+    fi = m.functions.get('isiterable')
+    if fi is None:
+        raise AnalysisError('anchor vanished: klepto/tools.py::isiterable')
+    p0 = fi.node.args.args[0].arg if fi.node.args.args else None
+    bad = None
+    for n in ast.walk(fi.node):
+        if isinstance(n, ast.Call) and isinstance(n.func, ast.Name) and n.func.id == 'hasattr' and len(n.args) == 2 and isinstance(n.args[0], ast.Name) \
+                and n.args[0].id == p0 and isinstance(n.args[1], ast.Constant) and n.args[1].value in ('__iter__', '__len__', '__getitem__', '__next__'):
+            bad = n
+    ctx.analysed(fi.qual)
+    ctx.ob('R-ITER', 'isiterable asks the object, not its attribute table', bad is None)
+    if bad is not None:
+        ctx.fail('R-ITER', fi.qual, 'iterability decided by hasattr(%s)' % bad.args[1].value,
+                 'isiterable() answers from hasattr(x, %r): a class object (list, dict, a user class defining __iter__ for its instances) has the attribute but is not '
+                 'iterable, so with deep=True an argument that is such a class is expanded with deep_round(*cls) and raises TypeError - rounding makes a valid call '
+                 'fail, and the safe caches silently stop caching it' % bad.args[1].value, '%s:%d' % (m.rel, bad.lineno))
+
+
 def rule_R_PURE(ctx, repo):
     """the rounders never mutate the caller's objects in place (the function must receive the original arguments)"""
     from . import own
